@@ -24,7 +24,7 @@ func init() {
 			{"MERGE-SERIAL", ruleMergeSerial},
 		},
 		Meta: eng.PropMeta{
-			Explanation: "Schedules are not enumerable statically; data-race freedom is decided as the classic lockset discipline on a confirmed table of shared state, exact on that table: (LOCKSET) every access to server.{topics,replicators} holds server.mu, to server.conns holds connMu, to server.peerIdentities holds piMux, to mergeQueue.keys holds mergeQueue.mutex, to channelBus.isClosed holds closeMutex (must-hold dataflow over go/cfg; goroutine literals start with nothing held; constructors exempt); (LOCK-ESCAPE) no map-typed element loaded from a guarded map is used after the lock was released; (CONFINEMENT) channelBus.subs/events are touched only by handleChannel and the constructor, handleChannel is the only receiver of commandChannel and is started exactly once; (BUS-SEND-LOCKED) every send on commandChannel outside handleChannel happens while closeMutex is held and after the isClosed test; (CONCTXN-WRAP) the store tree of a concurrent transaction is built from the mutex-holding wrapper and the wrapper overrides every corekv.ReaderWriter method; (MERGE-QUEUE) mergeQueue.add inserts only on the absent edge under the lock and re-checks after being woken; (MERGE-SERIAL) merges of one document run between add and a deferred done.",
+			Explanation: "Schedules are not enumerable statically; data-race freedom is decided as the classic lockset discipline on a confirmed table of shared state, exact on that table: (LOCKSET) every access to server.{topics,replicators} holds server.mu, to server.conns holds connMu, to server.peerIdentities holds piMux, to mergeQueue.keys holds mergeQueue.mutex, to channelBus.isClosed holds closeMutex (must-hold dataflow over go/cfg; goroutine literals start with nothing held; constructors exempt); (LOCK-ESCAPE) no map-typed element loaded from a guarded map is used after the lock was released; (CONFINEMENT) channelBus.subs/events are touched only by handleChannel and the constructor, handleChannel is the only receiver of commandChannel and is started exactly once; (BUS-SEND-LOCKED) every send on commandChannel outside handleChannel happens while closeMutex is held and after the isClosed test; (CONCTXN-WRAP) the store tree of a concurrent transaction is built from the mutex-holding wrapper and the wrapper overrides every corekv.ReaderWriter method; (MERGE-QUEUE) mergeQueue.add inserts only on the absent edge under the lock and re-checks after being woken; (MERGE-SERIAL) merges of one document run between add and a deferred done. (TXN-AFTER-LOCK) as in C15.",
 			NotDecided:  "races on state outside the table, deadlock freedom (e.g. Publish holding closeMutex.RLock while the command channel is full), final-state accounting of counters under concurrency, absence of panics under all interleavings",
 		},
 	})
